@@ -950,6 +950,7 @@ class Exec:
             dec = c.loop_decreases.get(k)
             if dec is not None and seq is None:
                 raise Unsupported("while-loop decreases not implemented")
+            self.at_path_cut("inv-step")
             raise PathEnd("inv-step")
         else:
             for nme in sorted(fr.locals.get("$maybe_unbound", set())):
